@@ -17,6 +17,7 @@ import (
 	"context"
 	"errors"
 	"reflect"
+	"runtime"
 	"sync"
 	"sync/atomic"
 	"time"
@@ -265,7 +266,22 @@ func (c *Caller) begin(ctx context.Context) []call {
 			defer cancel()
 			select {
 			case <-ctx.Done():
-				responder <- emptyCall
+				for {
+					// give the responder up only if it is still the registered one;
+					// otherwise an Invoke has taken it: wait for what it does with it,
+					// so that no call ends in a channel nobody reads.
+					if c.responders.RemoveCb(id, func(_ string, v interface{}, exists bool) bool {
+						return exists && v.(chan []call) == responder
+					}) {
+						return emptyCall
+					}
+					select {
+					case result := <-responder:
+						return result
+					default:
+						runtime.Gosched()
+					}
+				}
 			case result := <-responder:
 				return result
 			}
